@@ -247,6 +247,18 @@ def saturate(tier):
     return i
 
 
+def slow_stop(tier):
+    """free runs only: the reducer is held up (script "G") for longer than stop() is prepared to wait - both of
+    its 3 s waits give up and it returns ("timeout") with the loop still at work; once let go, the loop
+    reduces everything that had been accepted before it ends"""
+    progs = [{"c1": [D(5), D(1), D(2)],
+              "c2": [S("wait", "in"), O("stop"), S("signal", "go"), O("await_end"), O("get_state")]}]
+    i = _i("slow_stop", progs, {5: 2, 1: 0, 2: 0}, cap=4, kinds=(0, 1, 2),
+           red_script={"r1": {0: red("D"), 1: red("D"), 2: red("G")}})
+    i["stop_timeouts"] = True
+    return i
+
+
 def middleware(tier, n=2):
     """every verdict at every hook of the starred middlewares"""
     star = {"before_reduce": {0: "*", 1: "*"}, "before_effect": {0: "*", 1: "*"}, "before_dispatch": {0: "*", 1: "*"}}
@@ -518,7 +530,7 @@ def table(pid, tier):
         insts = [burst(tier, "block", 1)] + ([] if q else [burst(tier, "block", 2)])
         inv = ["C05_Bound", "C05_NoLoss", "C01_ExactlyOnce"]
         T = dict(mc=[(i, inv, []) for i in insts], gen=[(insts[0], 1500 if q else 20000)],
-                 free=[(i, 100 if q else 800) for i in insts],
+                 free=[(i, 100 if q else 800) for i in insts] + [(slow_stop(tier), 1)] * (1 if q else 3),
                  live=[(i, ["Live_ClientsDone", "Live_SendResumes"]) for i in insts])
     elif pid == "C06":
         insts = [burst(tier, "oldest", 1), burst(tier, "latest", 1), deep_queue("oldest")] + \
